@@ -8,11 +8,13 @@
    [value_trip] sends one value through dict_mapper with the demotion functions, dict_mapper with the write functions,
    json, dict_mapper with the read functions - exactly what InputFile.demote / stringify / json / numify do to every
    member of every form, at any nesting depth of dictionaries (they all delegate to dict_mapper).
-   The InputFile flow around it (flatten, promote, update_ui_values, set_enabled, enabled states) is the hand model
-   round_trip of Model/UiCodec.v, tied to the implementation by write->read on disk (no theorem: PARTIAL). *)
+   Whole dictionaries: [file_trip] = GENERATED demote ; stringify ; json ; GENERATED numify on a ui.json-shaped value of any
+   nesting depth and any number of forms (C14_file_roundtrip, by induction through the generated dict_mapper), followed by the
+   hand model [promote] (C14_file_roundtrip_promoted); GENERATED flatten and the enabled states (C14_flatten_*, C14_enabled_preserved).
+   update_ui_values / set_enabled (they write through aliases) remain a hand model tied by write->read on disk, without theorem. *)
 From Coq Require Import String.
 From GV Require Import Prelude.Base Model.PyVal Model.Enforcers Model.UiForms Model.UiCodec
-     Proofs.PyValProofs Proofs.UiCodecProofs.
+     Model.UiRules Proofs.PyValProofs Proofs.UiRulesProofs Proofs.UiCodecProofs Proofs.UiTreeProofs Proofs.UiFlattenProofs.
 From GVgen Require Import PyLite_SharedUtils PyLite_UiUtils PyLite_InputFile.
 Local Open Scope string_scope.
 
@@ -83,3 +85,72 @@ Print Assumptions C14_roundtrip_all_ints_refuted.
 Theorem C14_no_nonfinite_nested_refuted : ~ (forall n v w, value_written (S n) v = Ok w -> has_nonfinite w = false).
 Proof. exact nonfinite_nested_refuted. Qed.
 Print Assumptions C14_no_nonfinite_nested_refuted.
+
+(* ==== whole ui.json dictionaries ==== *)
+
+(* the generated dict_mapper over a whole tree: dictionaries at any depth, lists one level, for any list of functions that
+   leave dictionaries alone and map the occurring leaves by g *)
+Theorem C14_dict_mapper_tree : forall fs g L,
+  (forall d, apply_all fs (PDict d) = Ok (PDict d)) ->
+  (forall a, is_atom a = true -> L a = true -> apply_all fs a = Ok (g a)) ->
+  forall m v, tshape false L v = true -> depth v < m -> dict_mapper m v fs = Ok (tmap g v).
+Proof. exact dict_mapper_tree. Qed.
+Print Assumptions C14_dict_mapper_tree.
+
+(* PARTIAL (side condition: safe leaves, forms pass ui_validation as written): demote, stringify, json, numify return every
+   ui.json-shaped dictionary - nested dictionaries with distinct string keys, members scalars or lists / tuples of scalars,
+   nesting depth and number of forms unbounded (fuel only has to exceed the depth) - with each leaf canonical: entities as
+   their identifier, tuples as lists, everything else unchanged *)
+Theorem C14_file_roundtrip : forall m d,
+  tshape true atom_safe (PDict d) = true -> depth (PDict d) < m -> forms_pass true (text_tree (PDict d)) = true ->
+  file_trip m (PDict d) = Ok (canon_tree (PDict d)).
+Proof. exact file_roundtrip. Qed.
+Print Assumptions C14_file_roundtrip.
+
+Definition C14_demo_ui : pv :=
+  PDict [ (PStr "title", PStr "T"); (PStr "geoh5", PWs "dir/w.geoh5"); (PStr "run_command", PNone);
+          (PStr "levels", PList [PFloat FNInf; PFloat (FFin 3 1); PInt 7]);
+          (PStr "obj", PDict [(PStr "label", PStr "Object"); (PStr "value", PEnt KEntity 32%N);
+                              (PStr "meshType", PTuple [PUuid 12345%N; PUuid (2 ^ 127 + 5)%N]); (PStr "optional", PBool true);
+                              (PStr "enabled", PBool false)]);
+          (PStr "tol", PDict [(PStr "label", PStr "Tolerance"); (PStr "value", PFloat FPInf); (PStr "min", PFloat FNInf);
+                              (PStr "main", PBool true); (PStr "group", PStr "G")]) ].
+Example C14_file_roundtrip_nonvacuous :
+  tshape true atom_safe C14_demo_ui = true /\ depth C14_demo_ui = 3 /\ forms_pass true (text_tree C14_demo_ui) = true
+  /\ res_same (file_trip 4 C14_demo_ui) (Ok (canon_tree C14_demo_ui)) = true.
+Proof. vm_compute. repeat split; reflexivity. Qed.
+
+(* ... and promotion (hand model of InputFile.promote) gives back exactly the dictionary that was written when its identifiers
+   are entities of the workspace (no raw identifiers, no tuples) *)
+Theorem C14_file_roundtrip_promoted : forall W m d,
+  tshape false (fun a => atom_safe a && promotable W a) (PDict d) = true -> depth (PDict d) < m ->
+  forms_pass true (text_tree (PDict d)) = true ->
+  (j <- file_trip m (PDict d) ;; promote m W false j) = Ok (PDict d).
+Proof. exact file_roundtrip_promoted. Qed.
+Print Assumptions C14_file_roundtrip_promoted.
+
+(* ---- flatten (generated) and the enabled states ---- *)
+(* flatten reports, entry by entry: non-dictionary parameters as they are, a form by flat_value = None when it is disabled,
+   else its value (or property) member; dictionaries that are not forms are not reported *)
+Theorem C14_flatten_spec : forall d, keys_ok d -> (forall k v, In (k, v) d -> flat_ok v = true) ->
+  flatten (PDict d) = Ok (PDict (filter_map_snd flat_entry d)).
+Proof. exact flatten_eq. Qed.
+Print Assumptions C14_flatten_spec.
+
+(* None exactly for disabled forms: a disabled form gives None, an enabled form its member *)
+Theorem C14_flatten_form_entry : forall d k f, keys_ok d -> (forall k v, In (k, v) d -> flat_ok v = true) ->
+  In (PStr k, PDict f) d -> form_members (PDict f) = Some f ->
+  exists data x, flatten (PDict d) = Ok (PDict data) /\ dict_find (PStr k) data = Some x
+    /\ (form_enabled f = false -> x = PNone)
+    /\ (form_enabled f = true -> mem (if truthy (mem_default "isValue" f (PBool true)) then "value" else "property") f = Some x).
+Proof. exact flatten_form_entry. Qed.
+Print Assumptions C14_flatten_form_entry.
+
+(* the same forms are enabled / disabled (and are forms) in what C14_file_roundtrip says is read back *)
+Theorem C14_enabled_preserved : forall d k f,
+  tshape true atom_safe (PDict d) = true -> In (k, PDict f) d ->
+  exists f', In (k, PDict f') (match canon_tree (PDict d) with PDict d' => d' | _ => [] end)
+             /\ form_enabled f' = form_enabled f
+             /\ (dict_has (PStr "label") f' = dict_has (PStr "label") f) /\ (dict_has (PStr "value") f' = dict_has (PStr "value") f).
+Proof. exact enabled_preserved. Qed.
+Print Assumptions C14_enabled_preserved.
